@@ -386,3 +386,102 @@ pub fn merkle_replay(inp: &str, outp: &str, seed: u64) -> Result<()> {
     }
     Ok(())
 }
+
+// ---------------------------------------------------------------------------------------------------------------
+// End-to-end world (EndToEnd.tla): several honest leaves in ONE 4-ary tree of depth 2, two block headers over the
+// same tree root.  Leaf i proved against block b gives the nullifier of leaf i under block b's hash.
+pub struct E2EWorld {
+    leaves: Vec<Honest>,
+    blocks: Vec<([u8; 32], [u8; 32], [u8; 32], [u8; 110], u32, Dg)>,
+}
+
+pub fn e2e_world(seed: u64, outs: &[u32]) -> E2EWorld {
+    let mut rng = StdRng::seed_from_u64(seed ^ 0xE2E);
+    let n = outs.len();
+    assert!(n <= 16);
+    let mut specs = vec![];
+    let mut hashes: Vec<Dg> = vec![];
+    for _ in 0..n {
+        let secret = rd(&mut rng);
+        let tc: u64 = rng.gen::<u32>() as u64;
+        let tcl = [tc >> 32, tc & 0xffff_ffff];
+        let to = leaf::acct(&secret);
+        let lh = leaf::leaf_hash(&to, &tcl, 0, 1000);
+        specs.push((secret, tc, tcl, to, lh));
+        hashes.push(lh);
+    }
+    while hashes.len() < 16 {
+        hashes.push(rd(&mut rng));
+    }
+    // level 0: groups of four; level 1: the four group nodes
+    let group = |members: &[Dg], me: usize| -> ([[u8; 32]; 3], u8, Dg) {
+        let mut s: Vec<[u8; 32]> = (0..4).filter(|j| *j != me).map(|j| bytes(&members[j])).collect();
+        s.sort();
+        let cb = bytes(&members[me]);
+        let p = s.iter().filter(|x| **x < cb).count();
+        let sd: [Dg; 3] = [digest(&s[0]), digest(&s[1]), digest(&s[2])];
+        ([s[0], s[1], s[2]], p as u8, leaf::node(&members[me], &sd, p))
+    };
+    let nodes: Vec<Dg> = (0..4).map(|g| group(&hashes[4 * g..4 * g + 4], 0).2).collect();
+    let root = group(&nodes, 0).2;
+    let mut blocks = vec![];
+    for _ in 0..2 {
+        let parent = rd(&mut rng);
+        let state = rd(&mut rng);
+        let extr = rd(&mut rng);
+        let mut dg = [0u8; 110];
+        rng.fill(&mut dg[..]);
+        let number: u32 = rng.gen();
+        let digest_felts: Vec<u64> = bytes_to_felts(&dg).unwrap().iter().map(|x| x.to_canonical_u64()).collect();
+        let hdr = leaf::Hdr { parent, number: number as u64, state, extr, digest: digest_felts };
+        let bh = leaf::block_hash(&hdr, &root);
+        blocks.push((bytes(&parent), bytes(&state), bytes(&extr), dg, number, bh));
+    }
+    let mut leaves = vec![];
+    for (i, (secret, tc, tcl, to, lh)) in specs.iter().enumerate() {
+        let (s0, p0, n0) = group(&hashes[4 * (i / 4)..4 * (i / 4) + 4], i % 4);
+        assert_eq!(n0, nodes[i / 4]);
+        let (s1, p1, r1) = group(&nodes, i / 4);
+        assert_eq!(r1, root);
+        let nul = leaf::nullifier(secret, tcl);
+        let mut exit1 = [0u8; 32];
+        exit1[0] = 0xE0 + i as u8;
+        exit1[9] = 7;
+        let inputs_pub = PublicCircuitInputs {
+            asset_id: 0,
+            output_amount_1: outs[i],
+            output_amount_2: 0,
+            volume_fee_bps: 1,
+            nullifier: bytes(&nul).try_into().unwrap(),
+            exit_account_1: exit1.try_into().unwrap(),
+            exit_account_2: [0u8; 32].try_into().unwrap(),
+            block_hash: [0u8; 32].try_into().unwrap(),
+            block_number: 0,
+        };
+        leaves.push(Honest { inputs_pub, secret: bytes(secret), tc: *tc, ua: bytes(to), parent: [0; 32], state: [0; 32], extr: [0; 32], digest: [0; 110],
+                             input_amount: 1000, root: bytes(&root), sibs: vec![s0, s1], pos: vec![p0, p1], leaf_hash: *lh });
+    }
+    E2EWorld { leaves, blocks }
+}
+
+impl E2EWorld {
+    pub fn nullifier(&self, i: usize) -> [u8; 32] {
+        let b: &[u8] = self.leaves[i].inputs_pub.nullifier.as_ref();
+        b.try_into().unwrap()
+    }
+    pub fn block_hash(&self, b: usize) -> [u8; 32] {
+        bytes(&self.blocks[b].5)
+    }
+    /// a real leaf proof of leaf `i` against block `b`, through the repo's own prover
+    pub fn leaf_proof(&self, i: usize, b: usize) -> Result<plonky2::plonk::proof::ProofWithPublicInputs<zk_circuits_common::circuit::F, zk_circuits_common::circuit::C, { zk_circuits_common::circuit::D }>> {
+        let l = &self.leaves[i];
+        let (parent, state, extr, dg, number, bh) = &self.blocks[b];
+        let mut inputs_pub = l.inputs_pub.clone();
+        inputs_pub.block_hash = bytes(bh).try_into().unwrap();
+        inputs_pub.block_number = *number;
+        let h = Honest { inputs_pub, secret: l.secret, tc: l.tc, ua: l.ua, parent: *parent, state: *state, extr: *extr, digest: *dg, input_amount: l.input_amount,
+                         root: l.root, sibs: l.sibs.clone(), pos: l.pos.clone(), leaf_hash: l.leaf_hash };
+        let ci = circuit_inputs(&h, h.sibs.clone(), h.pos.clone());
+        WormholeProver::new(wormhole_leaf_circuit_config()).and_then(|p| p.commit(&ci)).and_then(|p| p.prove())
+    }
+}
